@@ -70,7 +70,12 @@ class _RequestHandler:
                 # ValueError on oversized integer literals
                 raise json.decoder.JSONDecodeError(str(e), "", 0)
             self.logger.debug("Delivering request")
-            response = self.protocol.handle_request(request)
+            try:
+                response = self.protocol.handle_request(request)
+            except RecursionError as e:
+                # A request nested almost as deeply as json.loads allows
+                # parses, but cannot be logged or walked any further
+                raise json.decoder.JSONDecodeError(str(e), "", 0)
             self.logger.debug("Got response: %s", response)
         except json.decoder.JSONDecodeError as e:
             self.logger.debug("JSON error: %s", e)
